@@ -159,6 +159,9 @@ def run_level(ctx, stop_first=False):
     cfgs.append(dict(dev="bar", cur={"source": 4.0, "drain": -4.0}, B=0.0, lam=0.5, opts=dict(dt_init=5e-3, adaptive=False, include_screening=True, screening_tolerance=1e-3)))
     # link variables refreshed in place during the run (time-dependent field / screening), terminals not pinned
     cfgs.append(dict(dev="bar", cur={"source": 2.0, "drain": -2.0}, B=0.5, td=True, opts=dict(dt_init=5e-3, adaptive=False, terminal_psi=None)))
+    # the gauge offset added to a time-dependent potential as a COMPOSITE (A_t + offset), in a run with a thermalisation stage
+    # (the clock restarts: the expression is evaluated again at times it has already seen)
+    cfgs.append(dict(dev="bar", cur={"source": 2.0, "drain": -2.0}, B=0.5, td=True, composite=True, opts=dict(dt_init=5e-3, adaptive=False, skip_time=0.04)))
     # runs CONTINUED from a seed solution (computed in the reference gauge) in each gauge, the potentials being closures
     # made by one factory (same code, same keyword arguments, another captured offset)
     cfgs.append(dict(dev="bar", cur={"source": 3.0, "drain": -3.0}, B=0.4, closure=True, seeded=True, opts=dict(dt_init=5e-3, adaptive=False)))
@@ -176,7 +179,9 @@ def run_level(ctx, stop_first=False):
             if os.path.exists(out):
                 os.remove(out)
             opts = runs.options(solve_time=0.12 if not cfg["opts"].get("adaptive") else 0.2, save_every=4, output_file=out, progress_interval=10**9, **cfg["opts"])
-            if cfg.get("td"):
+            if cfg.get("td") and cfg.get("composite"):
+                A = tdgl.Parameter(ramped_shifted_field, B=cfg["B"], cx=0.0, cy=0.0, time_dependent=True) + tdgl.Parameter(shifted_field, B=0.0, cx=cx, cy=cy)
+            elif cfg.get("td"):
                 A = tdgl.Parameter(ramped_shifted_field, B=cfg["B"], cx=cx, cy=cy, time_dependent=True)
             elif cfg.get("closure"):
                 A = tdgl.Parameter(closure_field(cfg["B"], cx, cy))
